@@ -119,6 +119,58 @@ class Repo:
         if os.environ.get("TLSA_NO_INLINE_CONSTS") != "1":
             self._inline_string_constants()
             self._inline_return_temps()
+            self._unnegate_ifs()
+            self._complete_positional_args()
+
+    def _complete_positional_args(self) -> None:
+        """Calls whose callee is known here - a function of the same module, a function imported from another src
+        module, or `self.method(...)` of the enclosing class (through its bases): keyword arguments that continue the
+        parameter list in order are ALSO appended to `call.args` (the keywords stay where they are).  A rule that reads
+        `call.args[i]` and a rule that reads the keyword by name then both see `f(path, recursive=flag)` and
+        `f(path, flag)` alike.  The appended expressions are the same node objects as the keyword values."""
+        def params_of(fn: ast.AST, drop_first: bool):
+            a = fn.args
+            if a.vararg is not None or a.posonlyargs:
+                return None
+            ps = [x.arg for x in a.args]
+            return ps[1:] if drop_first else ps
+
+        for m in self.modules.values():
+            cls_of: dict[int, Cls] = {}
+            for c in self.classes.values():
+                if c.module is m:
+                    for n in ast.walk(c.node):
+                        cls_of.setdefault(id(n), c)
+            for call in [n for n in ast.walk(m.tree) if isinstance(n, ast.Call) and n.keywords]:
+                if any(k.arg is None for k in call.keywords) or any(isinstance(x, ast.Starred) for x in call.args):
+                    continue
+                ps = None
+                if isinstance(call.func, ast.Name):
+                    q = self.resolve(m, call.func.id)
+                    f = self.funcs.get(q) if q else None
+                    if f is not None and f.cls is None and f.parent is None and not f.node.decorator_list:
+                        ps = params_of(f.node, False)
+                elif isinstance(call.func, ast.Attribute) and isinstance(call.func.value, ast.Name) and call.func.value.id == "self":
+                    c = cls_of.get(id(call))
+                    meth = self.find_method(c.qual, call.func.attr) if c is not None else None
+                    if meth is not None and not any(d in ("staticmethod", "classmethod", "property") for d in meth.decorators):
+                        ps = params_of(meth.node, True)
+                if ps is None or len(call.args) > len(ps):
+                    continue
+                kws = {k.arg: k for k in call.keywords}
+                i = len(call.args)
+                call.n_written_args = i   # what the author wrote positionally
+                while i < len(ps) and ps[i] in kws:
+                    call.args.append(kws[ps[i]].value)
+                    i += 1
+
+    def _unnegate_ifs(self) -> None:
+        """`if not (c): B else: A` (two arms, no elif) is presented as `if c: A else: B`."""
+        for m in self.modules.values():
+            for n in ast.walk(m.tree):
+                if isinstance(n, ast.If) and n.orelse and not (len(n.orelse) == 1 and isinstance(n.orelse[0], ast.If)) and isinstance(n.test, ast.UnaryOp) and isinstance(n.test.op, ast.Not):
+                    n.test = n.test.operand
+                    n.body, n.orelse = n.orelse, n.body
 
     def _inline_return_temps(self) -> None:
         """`x = <expr>` immediately followed by `return x`, with x bound and used nowhere else in the function, is
@@ -555,9 +607,29 @@ def kwarg(c: ast.Call, name: str, pos: int | None = None) -> ast.expr | None:
     return None
 
 
+def _unparse_written(node: ast.AST) -> str:
+    """ast.unparse of the code as written: arguments the fact base appended to `call.args` (see
+    Repo._complete_positional_args) are left out."""
+    touched = [c for c in ast.walk(node) if isinstance(c, ast.Call) and hasattr(c, "n_written_args") and len(c.args) > c.n_written_args]
+    saved = [(c, c.args) for c in touched]
+    try:
+        for c in touched:
+            c.args = c.args[: c.n_written_args]
+        return ast.unparse(node)
+    finally:
+        for c, a in saved:
+            c.args = a
+
+
+def argv(c: ast.Call) -> list[ast.expr]:
+    """All argument expressions of a call, positional and keyword (for "is X passed at all" questions)."""
+    n = getattr(c, "n_written_args", len(c.args))
+    return list(c.args[:n]) + [k.value for k in c.keywords if k.arg is not None]
+
+
 def norm(node: ast.AST) -> str:
     """Normalised, position-free text of a construct (finding keys)."""
-    s = ast.unparse(node)
+    s = _unparse_written(node)
     s = " ".join(s.split())
     return s if len(s) <= 160 else s[:157] + "..."
 
